@@ -240,6 +240,7 @@ def run(tier, seed):
     nviol = 0
     blocked_seen = admitted_seen = 0
     known_hits = {}
+    reported = set()
 
     def report(summary, rep, d, known_ok=False):
         nonlocal nviol
@@ -249,7 +250,9 @@ def run(tier, seed):
             known_hits[k["id"]] = known_hits.get(k["id"], 0) + 1
             return
         nviol += 1
-        if nviol <= 8:
+        cls = (d["go"], re.sub(r"[^a-z ]", "", summary.split(d["expr"])[0])[:40])
+        if cls not in reported and len(reported) < 12:
+            reported.add(cls)
             ck.violation(summary, rep)
 
     for i, l in enumerate(outs):
